@@ -49,6 +49,23 @@ func (j *Journal) Hit(op, target string) bool {
 	return false
 }
 
+// HitOnce is Hit for faults that strike the first matching call of the scan only (a write that loses a race once).
+func (j *Journal) HitOnce(op, target string) bool {
+	j.mu.Lock()
+	defer j.mu.Unlock()
+	key := "__once:" + op + ":" + target
+	if j.count[key] > 0 {
+		return false
+	}
+	for _, f := range j.faults {
+		if f.Op == op && f.T == target {
+			j.count[key]++
+			return true
+		}
+	}
+	return false
+}
+
 // CrashSentinel is the panic value with which the harness kills the scan at a crash point.
 type CrashSentinel struct{}
 
